@@ -14,6 +14,7 @@ class C01(Prop):
     id = 'C01'
     k2_mask = {('node', 'pop'), ('node', 'queues'), ('node', 'id'), ('node', '*'), ('top', 'exit_ids'), ('top', 'exit_n'), ('arr', 'created'), ('ind', 'node'), ('ind', '*')}      # the slice of the engine state / records this property reads (DESIGN 7, table of slices)
     k2_frames = 40
+    k2_invs2 = {'wfx2'}         # the stage-2 T2 invariants (Inv/AllRun2.invs2_b) this property answers for on real snapshots
     k2_invs = {'wfx'}          # the T2 invariants (Inv/AllRun.invs_b) this property answers for on real snapshots
     num = 1
     regions = {'quick': [('core', 60), ('block', 60), ('routers', 40), ('renege', 40), ('preempt', 40), ('sched', 40),
